@@ -391,7 +391,7 @@ package client
 //@   trusted
 //@   requires ui != nil && r != nil && sent(r.done) == 0 && u.State == reqState(r.req) && u.ActorIdx == reqActor(r.req) &&
 //@            updChecked(r.channel, r.req, r.pidx) && filterOK(ui, u.State, u.ActorIdx)
-//@   modifies *
+//@   modifies mach(r.channel).*, mach(r.channel).prevTXs[*], r.channel.parent.subChannelWithdrawals.entries[*], ghost("sends")
 
 // The responder: one answer per request (the done channel has capacity one and is read at most once).
 // respOK: a responder as handleUpdateReq builds it.
@@ -473,3 +473,14 @@ package client
 //@   modifies mach(parent).*, mach(parent).prevTXs[*], parent.parent.subChannelWithdrawals.entries[*], ghost("sends")
 //@   callsite (*stateWatcher).Await : old(settleOK(parent, prop))
 //@   ensures sent(responder.done) <= 1
+
+// handleUpdateReq: the machine mutex is held for the whole handling and released at the end; CheckUpdate comes first; every
+// hand-over of the responder (user handler, update interceptor, virtual channel handlers) happens only for a checked request.
+//@ func (*Channel).handleUpdateReq
+//@   requires chanOK(c) && reqDecoded(req) && uh != nil && pidx < 2 && mach(c).idx != pidx && !held(&c.machMtx)
+//@   requires c.client.fundingWatcher != nil && c.client.settlementWatcher != nil
+//@   modifies *
+//@   callsite (*Client).handleVirtualChannelFundingProposal : old(updChecked(ch, req, pidx)) && held(&ch.machMtx)
+//@   callsite (*Client).handleVirtualChannelSettlementProposal : old(updChecked(parent, req, pidx)) && held(&parent.machMtx)
+//@   callsite (*updateInterceptor).HandleUpdate : old(updChecked(r.channel, req, pidx)) && held(&r.channel.machMtx)
+//@   ensures !held(&c.machMtx)
